@@ -268,7 +268,48 @@ def program(blobs, crates):
     return _prog_cache[key]
 
 
+BIN_PG = os.path.join(BUILD, 'native', 'debug', 'dp-replay-pg')
+_built_pg = False
+
+
+def build_driver_pg():
+    global _built_pg
+    if _built_pg: return
+    lock = open(os.path.join(BUILD, 'native.lock'), 'w'); fcntl.flock(lock, fcntl.LOCK_EX)
+    try:
+        env = dict(os.environ); env['RUSTFLAGS'] = '--cfg deadpool_verif'; env['CARGO_NET_OFFLINE'] = 'true'
+        r = subprocess.run(['cargo', 'build', '--offline', '--manifest-path', os.path.join(HERE, 'replay_pg', 'Cargo.toml'),
+                            '--target-dir', os.path.join(BUILD, 'native')], env=env, capture_output=True, text=True)
+        if r.returncode != 0: raise ReplayError('native config driver build failed:\n' + r.stderr[-3000:])
+        _built_pg = True
+    finally:
+        fcntl.flock(lock, fcntl.LOCK_UN); lock.close()
+
+
+def confirm_case(pid, v):
+    """input-quantified properties (C18/C19): the concrete input from the solver's model is given to the real function;
+    confirmed iff the real output equals the engine's prediction (which violates the obligation)"""
+    try:
+        build_driver_pg()
+        case = v['native_case']
+        h = hashlib.sha1(json.dumps(case, sort_keys=True).encode()).hexdigest()[:10]
+        path = os.path.join(HERE, 'replays', f'{pid}-{h}.json'); os.makedirs(os.path.dirname(path), exist_ok=True)
+        case = dict(case, violation={'property': pid, 'what': v['what'], 'obligation': v.get('obligation')}, predicted=v['predicted'])
+        json.dump(case, open(path, 'w'), indent=1)
+        r = subprocess.run([BIN_PG, path], capture_output=True, text=True, timeout=60)
+        if r.returncode != 0: return {'status': 'replay_error', 'detail': r.stderr[-500:], 'path': path}
+        out = json.loads(r.stdout.strip().splitlines()[-1])
+        pred = json.loads(json.dumps(v['predicted']))
+        diffs = [k for k in pred if out.get(k) != pred[k]]
+        if diffs:
+            return {'status': 'not_reproduced', 'detail': f'native output differs from the prediction in {diffs}: native {[out.get(k) for k in diffs]} predicted {[pred[k] for k in diffs]}', 'path': path}
+        return {'status': 'confirmed', 'path': path, 'known': v.get('known')}
+    except Exception as e:
+        return {'status': 'replay_error', 'detail': f'{type(e).__name__}: {e}'[:500]}
+
+
 def confirm(pid, v, blobs=None):
+    if v.get('native_case') is not None: return confirm_case(pid, v)
     """replay the counterexample natively; 'confirmed' iff the real crate shows, step by step, exactly the observations
     from which the oracle derived the violation (and the oracle flags it again on the concrete run)"""
     try:
@@ -302,6 +343,11 @@ def confirm(pid, v, blobs=None):
 def replay_file(path, verbose=False):
     """./check <ID> --replay <trace>: run the stored trace natively and print what the real crate does"""
     trace = json.load(open(path))
+    if trace.get('kind') in ('pgconfig', 'redisconfig'):
+        build_driver_pg()
+        r = subprocess.run([BIN_PG, path], capture_output=True, text=True, timeout=60)
+        print(f'case {path}: {trace.get("violation")}'); print('native:    ' + r.stdout.strip()); print('predicted: ' + json.dumps(trace.get('predicted')))
+        return 0
     native = run_native(trace, keep_path=path)
     print(f'trace {path}: {trace.get("violation")}')
     for n in native:
